@@ -25,7 +25,7 @@ def run(tier):
     rng = random.Random(seed())
     stats = {"combinations": 0, "schedules_enumerated": 0, "replays": 0, "stuck": 0, "diverged": 0, "rejected": 0, "model_deadlocks": 0}
     # S2: the concurrent storage protocol at lock granularity (writers x snapshotter x rotation x compaction)
-    base = dict(NW=2, OpsPerWriter=1, ManualSnaps=1, SnapEvery=1, RotAfter=1, ManLockThroughCompaction="TRUE", GuardUnderLock="TRUE", SeqUnderSnapLock="TRUE")
+    base = dict(NW=2, OpsPerWriter=1, ManualSnaps=1, SnapEvery=1, RotAfter=1, ManLockThroughCompaction="TRUE", GuardUnderLock="TRUE", SeqUnderSnapLock="TRUE", LastUnderLock="TRUE")
     grid = [dict(), dict(SnapEvery=0, ManualSnaps=2), dict(NW=1, OpsPerWriter=2, SnapEvery=2, ManualSnaps=2)]
     if tier == "thorough":
         grid += [dict(OpsPerWriter=2, SnapEvery=2)]
@@ -34,7 +34,8 @@ def run(tier):
         ck.add_tlc("DurabilityConc model check %s" % g, r, note="QuiescentRecovers NoStaleSnapshotWins ActiveListed NoModelDeadlock")
     for name, g, inv in [("manifest_lock released during compaction", dict(ManLockThroughCompaction="FALSE", OpsPerWriter=2, SnapEvery=2), "ActiveListed"),
                          ("stale-snapshot guard outside manifest_lock", dict(GuardUnderLock="FALSE", OpsPerWriter=2, SnapEvery=2), "NoStaleSnapshotWins"),
-                         ("sequence number allocated before snapshot_lock.read", dict(SeqUnderSnapLock="FALSE", NW=1, SnapEvery=0), "QuiescentRecovers")]:
+                         ("sequence number allocated before snapshot_lock.read", dict(SeqUnderSnapLock="FALSE", NW=1, SnapEvery=0), "QuiescentRecovers"),
+                         ("last_wal_seq read after snapshot_lock.write() is released", dict(LastUnderLock="FALSE", NW=1, SnapEvery=0), "QuiescentRecovers")]:
         r = tlc("DurabilityConc", consts=dict(base, **g), workers=8, timeout=1200, expect_violation=True)
         ck.add_tlc("DurabilityConc expected counterexample: " + name, r)
         if r.violation != inv:
